@@ -182,6 +182,36 @@ fn cb_reads_are_silent() {
     core::mem::forget(l);
 }
 
+// *_or_put on an ABSENT key is a put: a capacity eviction it causes must be reported like put's (the hit case is in
+// cb_reads_are_silent).  Added after the independently seeded change C15-4 (contains_or_put linking the node itself
+// and evicting silently) went unnoticed: the contract of these three entry points had only been stated for hits.
+#[kani::proof]
+#[kani::unwind(6)]
+fn cb_or_put_miss() {
+    let (mut l, pre) = any_cb_lru();
+    let k: u8 = kani::any();
+    let v: u8 = kani::any();
+    let which: u8 = kani::any();
+    kani::assume(which < 3);
+    kani::assume(!pre.has(k));
+    kani::cover!(which == 0 && pre.n == pre.cap && pre.cap > 0, "cb peek_or_put miss: eviction");
+    kani::cover!(which == 1 && pre.n == pre.cap && pre.cap > 0, "cb peek_mut_or_put miss: eviction");
+    kani::cover!(which == 2 && pre.n == pre.cap && pre.cap > 0, "cb contains_or_put miss: eviction");
+    kani::cover!(pre.n < pre.cap, "cb *_or_put miss: room");
+    let r = match which {
+        0 => l.peek_or_put(k, v).1.map(|x| pr_of(&x)),
+        1 => l.peek_mut_or_put(k, v).1.map(|x| pr_of(&x)),
+        _ => l.contains_or_put(k, v).1.map(|x| pr_of(&x)),
+    };
+    if pre.cap > 0 && pre.n == pre.cap {
+        ck!(logn() == 1 && Some(log(0)) == pre.last() && r == Some(PR::Evicted(log(0).0, log(0).1)),
+            "[C15.evict] a capacity eviction caused by *_or_put on an absent key invokes the callback exactly once with the departing pair");
+    } else {
+        ck!(logn() == 0, "[C15.silent] *_or_put on an absent key with room (or capacity 0) invokes no callback");
+    }
+    core::mem::forget(l);
+}
+
 // both constructors that take a callback keep it
 #[kani::proof]
 #[kani::unwind(6)]
